@@ -1907,6 +1907,7 @@ def normalize_module(tree, modname):
     _split_chained_assignments(tree)
     _tail_recursion_to_loops(tree)
     from . import devirt
+    devirt.flatten_private_bases(tree)
     devirt.tuple_records(tree)
     devirt.devirtualize(tree)
     _expand_private_contextmanagers(tree)
